@@ -457,20 +457,26 @@ def make_worker(ctx, det_n):
     def worker(shard, items):
         res = {'configs': 0, 'evaluations': 0, 'nontrivial': 0, 'allowed': 0, 'denied': 0, 'violations': [], 'crashes': [],
                'deadline_hit': False, 'starts': 0, 'reconfigs': 0, 'kicks': 0, 'vectors': set(), 'classes': {}, 'samples': [],
-               'det_checked': 0, 'default_decided': 0, 'dims': {}}
+               'det_checked': 0, 'default_decided': 0, 'dims': {}, 'watchdog_retries': 0}
         # determinism / start-vs-reconfigure obligation: det_n configurations spread over this shard's list are first run on
         # instances started directly with them
         det = {}
         idxs = sorted(set((len(items) * (2 * k + 1)) // (2 * det_n) for k in range(det_n))) if items else []
         for i in idxs:
-            w0 = CWorld(ctx, shard, name='d%d' % shard)
-            try:
-                w0.start(items[i][1])
-                det[i] = eval_config(w0, items[i][1])[0]
-                res['kicks'] += w0.sq.kicks
-                res['starts'] += 1
-            finally:
-                w0.stop()
+            for attempt in range(2):
+                w0 = CWorld(ctx, shard, name='d%d' % shard)
+                try:
+                    w0.start(items[i][1])
+                    det[i] = eval_config(w0, items[i][1])[0]
+                    res['kicks'] += w0.sq.kicks
+                    res['starts'] += 1
+                    break
+                except HarnessError as e:
+                    if attempt or 'watchdog' not in str(e):
+                        raise
+                    res['watchdog_retries'] += 1
+                finally:
+                    w0.stop()
         w = CWorld(ctx, shard)
         try:
             since = 0
@@ -478,16 +484,29 @@ def make_worker(ctx, det_n):
                 if time.time() > t_end:
                     res['deadline_hit'] = True
                     break
-                if w.sq is None or since >= RESTART_EVERY:
-                    if w.sq is not None:
-                        res['kicks'] += w.sq.kicks
-                    w.start(rules)
-                    since = 0
-                else:
-                    w.reconfigure(rules)
-                since += 1
-                tr, bad, classes = eval_config(w, rules)
-                probs = w.problems()
+                for attempt in range(2):
+                    try:
+                        if w.sq is None or since >= RESTART_EVERY:
+                            if w.sq is not None:
+                                res['kicks'] += w.sq.kicks
+                            w.start(rules)
+                            since = 0
+                        else:
+                            w.reconfigure(rules)
+                        since += 1
+                        tr, bad, classes = eval_config(w, rules)
+                        probs = w.problems()
+                        break
+                    except HarnessError as e:
+                        # the engine's real-time watchdog (20 s) can expire on an overloaded machine: that is a machinery
+                        # problem, so the configuration is tried once more on a fresh instance before giving up
+                        if attempt or 'watchdog' not in str(e):
+                            raise
+                        res['watchdog_retries'] += 1
+                        res['starts'] += w.starts
+                        res['reconfigs'] += w.reconfigs
+                        w.stop()
+                        w = CWorld(ctx, shard)
                 res['configs'] += 1
                 res['evaluations'] += len(UNIVERSE)
                 res['classes'][cls] = res['classes'].get(cls, 0) + 1
@@ -607,7 +626,8 @@ def run(ctx):
                             '' if ctx.quick else '; L11s the same with equal actions; L12/L21 every list of 2 rules with 1+2 / 2+1 literals')),
            'requests_forwarded': tot('allowed'), 'requests_denied_403': tot('denied'), 'distinct_decision_vectors': len(vectors),
            'configs_where_implicit_default_decided': tot('default_decided'), 'instance_starts': tot('starts'),
-           'reconfigurations': tot('reconfigs'), 'start_vs_reconfigure_crosschecks': tot('det_checked'), 'kicks': tot('kicks')}
+           'reconfigurations': tot('reconfigs'), 'start_vs_reconfigure_crosschecks': tot('det_checked'), 'kicks': tot('kicks'),
+           'watchdog_retries': tot('watchdog_retries')}
     return Result(LEVEL, cov, vio, ASSUME)
 
 
